@@ -475,9 +475,12 @@ def gen_cases(ctx):
             add("unsqueeze", sh, ("unsqueeze", (a,)))
         add("unsqueeze", sh, ("unsqueeze", ()))
         w = 2 if quick else 3
-        for a in range(-n - w, n + w):
-            for b in range(-n - w, n + w):
-                add("unsqueeze", sh, ("unsqueeze", (a, b)))
+        if not (quick and n == 3 and len(set(sh)) == 3):      # quick: pairs on 21 of the 27 rank-3 shapes
+            for a in range(-n - w, n + w):
+                for b in range(-n - w, n + w):
+                    if quick and n == 3 and (a + 2 * b + sum(sh)) % 2:   # ... and every other pair (acceptance depends on the rank only)
+                        continue
+                    add("unsqueeze", sh, ("unsqueeze", (a, b)))
         for _ in range(4):
             add("unsqueeze", sh, ("unsqueeze", tuple(rng.randint(-n - 3, n + 2) for _ in range(3))))
         # --- unfold: every (dimension, size, step) with size, step in 0..4 (0: rejected)
@@ -544,7 +547,7 @@ def gen_cases(ctx):
         for a in vals:
             for b in vals:
                 for c in (None, -1, 2, -2, 3, -3):
-                    if rng.random() < (0.5 if quick else 1.0):
+                    if rng.random() < (0.25 if quick else 1.0):
                         add("slice-1d", (L,), ("index", (("s", a, b, c),)))
 
     def ropt():
@@ -563,7 +566,7 @@ def gen_cases(ctx):
         ln = rng.randint(1, 4)
         return ("a", tuple(rng.randint(-3, 2) if rng.random() < 0.2 else rng.randint(-1, 0) if rng.random() < 0.3 else rng.randint(-2, 1) for _ in range(ln)))
 
-    nidx = 2000 if quick else 12000
+    nidx = 1500 if quick else 12000
     seen = set()
     tries = 0
     while len(seen) < nidx and tries < nidx * 20:
@@ -582,7 +585,7 @@ def gen_cases(ctx):
     # systematic small ones: every single item / pair on small shapes
     basics = [("i", z) for z in range(-4, 4)] + [("n",), ("e",), ("s", None, None, None), ("s", 1, None, None), ("s", None, None, -1),
               ("s", None, -1, 2), ("a", (0, 0)), ("a", (-1, 0, -1)), ("a", (0,)), ("a", (2,)), ("a", (0, 1, 0, 1))]
-    for sh in (shapes_upto(2, (2, 3)) + [(2, 3, 2), (1,), (3, 1)] if quick else shapes_upto(3, (2, 3)) + [(1,), (1, 1), (3, 1), (1, 2, 1)]):
+    for sh in (shapes_upto(2, (2, 3)) + [(2, 3, 2), (1,)] if quick else shapes_upto(3, (2, 3)) + [(1,), (1, 1), (3, 1), (1, 2, 1)]):
         for a in basics:
             add("index", sh, ("index", (a,)))
             for b in basics:
@@ -795,7 +798,7 @@ def run_part(ctx, prop=None, props_rel=None):
         for i, (sh, op, f, b) in enumerate(rows):
             w = judge(ctx, sh, op, f, None, errs[i])
             if w is not None:
-                witnesses.append((i in suspicious, size_of(sh), w))
+                witnesses.append((i in suspicious, size_of(sh), len(sh) * 10 + len(op_py(op)), w))
         ctx.log("views/%s: %d cases, %d mismatches, %.1fs" % (family, len(rows), len(mism), time.time() - t0))
 
     # ---- iteration
@@ -832,9 +835,10 @@ def run_part(ctx, prop=None, props_rel=None):
         identities(ctx)
 
     # ---- report oracle witnesses: those on cases where a tie broke first, then the smallest
-    witnesses.sort(key=lambda t: (not t[0], t[1] == 0, t[1]))      # prefer cases where a tie broke, then small non-empty tensors
+    # prefer cases where a tie broke, then non-degenerate small tensors (no 0-d / size-1 / empty), then short calls
+    witnesses.sort(key=lambda t: (not t[0], t[1] <= 1, t[1], t[2]))
     reported = set()
-    for _, _, w in witnesses:
+    for _, _, _, w in witnesses:
         key = (w["site"], w["klass"])
         if key in reported:
             continue
